@@ -187,6 +187,8 @@ def scenarios(tier, seed):
                 ('declared float array then typed int array', 'v float[2] m\nv int[2] = [1,2]'), ('declared bool then typed int assignment', 'b bool\nb int = {k}'),
                 ('constant node assigned none', 'a float = {x} m\n  !constant\na = none'), ('constant bool assigned none (typed)', 'b bool = true\n  !constant\nb bool = none'),
                 ('constant nested int assigned none', 'g\n  k int = {k}\n    !constant\ng.k = none'), ('constant str assigned none', 's str = x\n  !constant\ns = none'),
+                ('re-typed assignment of none', 'a int = {k}\na float = none'), ('re-typed assignment of none (bool over str)', 's str = x\ns bool = none'), ('re-typed assignment of none on a nested node', 'g\n  a float = {x} m\ng.a int = none'),
+                ('re-typed assignment of none followed by a value', 'a int = {k}\na float = none\na = {k}'), ('declared node re-typed with none', 'a int\na str = none\na = {k}'),
                 ('modification of an undefined node', 'a = {x} m'), ('unit on a boolean', 'b bool = true m'), ('bool assigned a number', 'b bool = {k}')]
     accepted = [('declaration then typed value of the same type in another prefix', 'a float m\na float = {x} km'), ('declaration then value', 'a float m\na = {x}'), ('declaration then value in another prefix', 'a float m\na = {x} cm'),
                 ('declared str given the empty text', 'a str\na = ""'), ('declared str given the empty single-quoted text', "a str\na = ''"), ('defined str emptied', 'a str = "abc"\na = ""'),
